@@ -26,6 +26,7 @@ KNOBS = {
     "p_unknown": 0.1,
     "p_dup": 0.08,
     "p_timeout": 0.05,
+    "p_warn_error": 0.05,
     "p_deps": 0.1,
     "p_sync": 0.15,
     "middlewares": (0, 1),
@@ -74,6 +75,19 @@ def gen(rs: int, tier: str, index: int) -> dict:
                 m.pop("dep_fail", None)
                 for a in m.get("attempts", []):
                     if a.get("out", ["ret"])[0] == "requeue":
+                        a["out"] = ["ret"]
+    elif index % 6 != 2 and r.random() < 0.12 and s["messages"]:
+        # the task name of template 0 is registered again half-way with a function of the other kind (sync <-> async), after the
+        # receiver has already prepared (and possibly executed) the first one: messages taken afterwards run the new function once
+        times = sorted(m["send_at_us"] for m in s["messages"])
+        rt = 1 if len(s["tasks"]) > 1 and s["tasks"][1].get("sync") and r.random() < 0.6 else 0      # sync -> async or async -> sync
+        s["ops"].append({"op": "reregister", "task": rt, "at_us": times[len(times) // 2]})
+        s["tasks"][rt]["ctx"] = False
+        for m in s["messages"]:
+            if m.get("task") == rt:
+                m.pop("timeout", None)
+                for a in m.get("attempts", []):
+                    if a.get("out", ["ret"])[0] in ("requeue", "reject"):
                         a["out"] = ["ret"]
     return s
 
